@@ -177,7 +177,7 @@ EXTRA5 = {
  'C18': ' R2 also: under the assumption that the non-printable guard matched, no open path of visit_Constant writes the value as is or dollar-quoted (path fact; single-character containment tests are independent of the guard); the slip battery covers the SQL source generator (memo keys).',
 }
 EXTRA5['C14'] = ' R9: per descriptor tag, the conditions under which an element field is present agree between the encoder and the decoder loops. R10: the collection describers describe the elements walked from get_subtypes as they are (no re-binding before the recursive description).'
-EXTRA5['C19'] = ' R12: the source and scope recorded by set_value do not derive from the map being updated; R13: the compilation-config blob folds its scopes so that a later (more specific) argument wins (update loop in order, or ChainMap over the reversed sequence).'
+EXTRA5['C19'] = ' R12: the source and scope recorded by set_value do not derive from the map being updated; R13: the compilation-config blob folds its scopes so that a later (more specific) argument wins (update loop in order, or ChainMap over the reversed sequence); R14: from_pyvalue removes nothing from the nested values of the payload it is given (the Operation is applied more than once).'
 EXTRA5['C04'] += ' R14: unmangle_name decodes only isolated escape characters (negative look-behind and look-ahead for the doubled character) into the separator mangle_name wrote for them.'
 EXTRA5['C15'] = ' R12: current_capacity and the snapshot\'s capacity read the ledger _cur_capacity (the counter that still includes connections being closed).'
 EXTRA5['C18'] += ' R3 also: every interpolating return of quote_bytea_literal interpolates a hex encoding of the data.'
